@@ -352,7 +352,18 @@ class C15(core.Check):
                     dec = posixpath.normpath(posixpath.join(st_["cwd"], rel))
                     if dec not in files and not dec.startswith(rootdir + "/") and dec.startswith("/simfs/"):
                         files[dec] = 'NAME "decoy"\n'
-        return {"prop": "C15", "seed": seed, "files": files, "dirs": dirs, "root": root, "expand": expand,
+        twin = None
+        if expand and not special and not faults and state["p_abs"] == 0.0 and k.random() < 0.25:
+            # a second project with the same relative layout and different content under another base directory;
+            # both are opened through the SAME relative root name from their own base as working directory
+            twin = "/simfs/twinB"
+            for pth, txt in list(files.items()):
+                if pth.startswith(rootdir + "/") or posixpath.dirname(pth) == rootdir or pth.startswith("/simfs/"):
+                    files[twin + pth[len("/simfs"):]] = txt.replace('"', '"T', 1)
+            steps = []
+            for _ in range(k.choice([2, 3, 4])):
+                steps.append({"mode": r.choice(["open_rel", "open_rel", "load_relname2"]), "cwd": r.choice(["/simfs", twin]), "twin": True})
+        return {"prop": "C15", "seed": seed, "files": files, "dirs": dirs, "root": root, "expand": expand, "twin": twin,
                 "flags": {"include_comments": k.random() < 0.3, "include_position": k.random() < 0.3},
                 "reuse_parser": k.random() < 0.5, "steps": steps, "faults": faults, "special": special,
                 "real_replay": (not faults) and k.random() < (0.03 if tier == "quick" else 0.1)}
@@ -362,7 +373,7 @@ class C15(core.Check):
         fs = simfs.SimFS(case["files"], cwd=cwd, faults=case["faults"] if faults else None)
         for d in case["dirs"]:
             fs.mkdir(d)
-        for d in ("/simfs/elsewhere", "/simfs/other", "/simfs/other/deep", "/simfs/proj", "/simfs/proj/inc"):
+        for d in ("/simfs/elsewhere", "/simfs/other", "/simfs/other/deep", "/simfs/proj", "/simfs/proj/inc", "/simfs/twinB"):
             fs.mkdir(d)
         return fs
 
@@ -389,6 +400,8 @@ class C15(core.Check):
                             raise OSError("injected read fault")
                 return fh.read()
 
+        if step.get("twin"):
+            case = dict(case, root=step["cwd"] + case["root"][len("/simfs"):])
         rootdir = posixpath.dirname(case["root"])
         mode = step["mode"]
         try:
@@ -414,6 +427,12 @@ class C15(core.Check):
         flags = case["flags"]
         kw = dict(flags, expand_includes=case["expand"])
         root = case["root"]
+        if mode in ("open_rel", "load_relname2"):
+            rel = case["root"][len("/simfs/"):]  # the same relative name, whatever the working directory is
+            if mode == "open_rel":
+                return mf.open(rel, **kw)
+            with open(rel, "r", encoding="utf-8") as fp:
+                return mf.load(fp, **kw)
         if mode == "open":
             return mf.open(root, **kw)
         if mode == "load_named":
